@@ -56,6 +56,103 @@ theorem tellAll_eq_map (c : SCmd) (n : Nat) (u : List Nat) :
 theorem allIn_iff (n : Nat) (l : List Nat) : allIn n l = true ↔ ∀ i, i < n → i ∈ l := by
   simp [allIn, List.all_eq_true]
 
+/-! ### the cluster provider (App.UpdateNodeState ignores its error) -/
+
+@[simp] theorem delivered_nil_right (sc : List Bool) : delivered sc [] = [] := by cases sc <;> rfl
+@[simp] theorem lostOf_nil_right (sc : List Bool) : lostOf sc [] = [] := by cases sc <;> rfl
+
+@[simp] theorem delivered_nil_script (l : List NS) : delivered [] l = l := by
+  induction l with
+  | nil => rfl
+  | cons a l ih => simp [delivered, ih]
+
+@[simp] theorem lostOf_nil_script (l : List NS) : lostOf [] l = [] := by
+  induction l with
+  | nil => rfl
+  | cons a l ih => simp [lostOf, ih]
+
+/-- what the provider accepted is an order-preserving selection of what the node published -/
+theorem delivered_sublist (sc : List Bool) (l : List NS) : (delivered sc l).Sublist l := by
+  induction l generalizing sc with
+  | nil => simp
+  | cons a l ih =>
+    cases sc with
+    | nil => simp
+    | cons b sc => cases b <;> simp [delivered, ih]
+
+theorem lostOf_sublist (sc : List Bool) (l : List NS) : (lostOf sc l).Sublist l := by
+  induction l generalizing sc with
+  | nil => simp
+  | cons a l ih =>
+    cases sc with
+    | nil => simp
+    | cons b sc => cases b <;> simp [lostOf, ih]
+
+/-- every publication reaches the provider exactly once: accepted or refused, never both, never again -/
+theorem delivered_length_add_lost (sc : List Bool) (l : List NS) :
+    (delivered sc l).length + (lostOf sc l).length = l.length := by
+  induction l generalizing sc with
+  | nil => simp
+  | cons a l ih =>
+    cases sc with
+    | nil => simp
+    | cons b sc => cases b <;> simp [delivered, lostOf] <;> have := ih sc <;> omega
+
+/-- nothing refused: the provider saw exactly what the node published -/
+theorem delivered_of_no_loss (sc : List Bool) (l : List NS) (h : lostOf sc l = []) : delivered sc l = l := by
+  induction l generalizing sc with
+  | nil => simp
+  | cons a l ih =>
+    cases sc with
+    | nil => simp
+    | cons b sc => cases b <;> simp_all [delivered, lostOf]
+
+theorem delivered_append (sc : List Bool) (a b : List NS) :
+    delivered sc (a ++ b) = delivered sc a ++ delivered (scriptAfter sc a.length) b := by
+  induction a generalizing sc with
+  | nil => simp [scriptAfter]
+  | cons x a ih =>
+    cases sc with
+    | nil => simp [scriptAfter]
+    | cons f sc => cases f <;> simp [delivered, scriptAfter, ih]
+
+theorem isMerge_deliver (sc : List Bool) (l : List NS) : isMerge l (delivered sc l) (lostOf sc l) = true := by
+  induction l generalizing sc with
+  | nil => simp [isMerge]
+  | cons a l ih =>
+    cases sc with
+    | nil => have := ih []; simp_all [isMerge]
+    | cons b sc => cases b <;> have := ih sc <;> simp_all [delivered, lostOf, isMerge]
+
+/-- with nothing refused the clause is the old `pubs = upd` -/
+theorem isMerge_no_loss (u p : List NS) : isMerge u p [] = true ↔ p = u := by
+  induction u generalizing p with
+  | nil => cases p <;> simp [isMerge]
+  | cons a u ih =>
+    cases p with
+    | nil => simp [isMerge]
+    | cons x p =>
+      simp only [isMerge, Bool.or_false, Bool.and_eq_true, beq_iff_eq, ih, List.cons.injEq]
+
+theorem monotoneFrom_weaken {r r' : Nat} (h : r' ≤ r) (l : List NS) (hm : monotoneFrom r l = true) :
+    monotoneFrom r' l = true := by
+  cases l with
+  | nil => rfl
+  | cons a l =>
+    simp only [monotoneFrom, Bool.and_eq_true, decide_eq_true_eq] at hm ⊢
+    exact ⟨by omega, hm.2⟩
+
+theorem monotoneFrom_sublist {l' l : List NS} (hs : l'.Sublist l) (r : Nat) (hm : monotoneFrom r l = true) :
+    monotoneFrom r l' = true := by
+  induction hs generalizing r with
+  | slnil => rfl
+  | cons a _ ih =>
+    simp only [monotoneFrom, Bool.and_eq_true, decide_eq_true_eq] at hm
+    exact ih r (monotoneFrom_weaken hm.1 _ hm.2)
+  | cons_cons a _ ih =>
+    simp only [monotoneFrom, Bool.and_eq_true, decide_eq_true_eq] at hm ⊢
+    exact ⟨hm.1, ih _ hm.2⟩
+
 /-! ### per-step facts about what the model shows -/
 
 /-- a step publishes nothing and keeps the state, or publishes exactly the new state, or (exit
@@ -413,8 +510,8 @@ theorem cmdOk_step {hist : List Op} {s : St} (m1 : Mon) (o : Op)
 
 theorem clauses_none (m1 : Mon) (op : MOp) (ob : Obs) (hC : CmdOk m1 op ob)
     (g3 : monotoneFrom m1.cur.rank ob.pubs = true)
-    (g4 : lastOr m1.cur ob.pubs = ob.st)
-    (g4b : ob.pubs = ob.upd)
+    (g4 : lastOr m1.cur (if ob.lost.isEmpty then ob.pubs else ob.upd) = ob.st)
+    (g4b : isMerge ob.upd ob.pubs ob.lost = true)
     (g5 : m1.stopsTotal + ob.stops ≤ 1)
     (g11 : 3 ≤ ob.st.rank → allIn m1.n m1.reported = true)
     (g12 : 0 < m1.n → allIn m1.n m1.reported = true → 3 ≤ ob.st.rank)
@@ -435,7 +532,7 @@ theorem clauses_none (m1 : Mon) (op : MOp) (ob : Obs) (hC : CmdOk m1 op ob)
     · simp
     · simp [(ce h).1]
   · simp [g3]
-  · simp [g4]
+  · simpa using g4
   · simp [g4b]
   · simp; omega
   · cases h : exitAccepted op ob
@@ -495,10 +592,22 @@ theorem clauses_none (m1 : Mon) (op : MOp) (ob : Obs) (hC : CmdOk m1 op ob)
       · exact absurd h2 this
       · simp
 
-/-- one step of the model under the monitor: nothing is flagged and the simulation continues -/
-theorem check_step {hist : List Op} {s : St} {m : Mon} (o : Op) (hI : RInv hist s) (hS : Sim m s) :
-    (m.step (mopOf s o) (obsOf (step true s o).1 (step true s o).2)).2 = none ∧
-    Sim (m.step (mopOf s o) (obsOf (step true s o).1 (step true s o).2)).1 (step true s o).1 := by
+/-- the clauses about commands do not look at what the provider did with the publications -/
+theorem CmdOk.lossy {m1 : Mon} {op : MOp} {s' : St} {es : List Evt} (sc : List Bool)
+    (h : CmdOk m1 op (obsOf s' es)) : CmdOk m1 op (obsOfL sc s' es) := by
+  obtain ⟨cr, ce, cs, cn, cf, ca⟩ := h
+  refine ⟨cr, ce, cs, cn, ?_, ca⟩
+  intro a b
+  obtain ⟨h1, h2, h3, h4⟩ := cf a b
+  refine ⟨?_, h2, h3, h4⟩
+  have h1' : pubsOf es = [] := h1
+  simp [obsOfL, h1']
+
+/-- one step of the model under the monitor, the cluster provider following any fault script:
+nothing is flagged and the simulation continues -/
+theorem check_stepL {hist : List Op} {s : St} {m : Mon} (sc : List Bool) (o : Op) (hI : RInv hist s) (hS : Sim m s) :
+    (m.step (mopOf s o) (obsOfL sc (step true s o).1 (step true s o).2)).2 = none ∧
+    Sim (m.step (mopOf s o) (obsOfL sc (step true s o).1 (step true s o).2)).1 (step true s o).1 := by
   have hI' := hI.step o
   have hk := step_kinds true s o
   obtain ⟨ln, lc, lt, ldecl, lrep, lok, linl⟩ := learn_sim o hS
@@ -508,34 +617,45 @@ theorem check_step {hist : List Op} {s : St} {m : Mon} (o : Op) (hI : RInv hist 
   have hu1 := learn_unres o hS.unr
   have hu0 : (∃ c, o = .cmd c) → (m.learn (mopOf s o)).unres = s.unres := by
     rintro ⟨c, rfl⟩; exact hS.unr
-  have hnow := stopSucceedsNow_iff (m.learn (mopOf s o)) s o hi1
+  have hnow0 := stopSucceedsNow_iff (m.learn (mopOf s o)) s o hi1
+  have hnow : stopSucceedsNow (m.learn (mopOf s o)) (mopOf s o) (obsOfL sc (step true s o).1 (step true s o).2) = true ↔
+      succNow s o := hnow0
   have hst := step_stops s o
   have hb : stopBudget (step true s o).1 ≤ 1 := by unfold stopBudget; split <;> omega
   have hSs := hS.stops
   have hexit : (step true s o).1.st = .exited →
       ((m.learn (mopOf s o)).stopOk ||
-        stopSucceedsNow (m.learn (mopOf s o)) (mopOf s o) (obsOf (step true s o).1 (step true s o).2)) = true := by
+        stopSucceedsNow (m.learn (mopOf s o)) (mopOf s o) (obsOfL sc (step true s o).1 (step true s o).2)) = true := by
     intro h
     rcases step_exited s o h with h | h
     · simp [lok (hS.stopOk h)]
     · simp [hnow.mpr h]
+  have hmono : monotoneFrom s.st.rank (pubsOf (step true s o).2) = true := by
+    have hle := step_rank_le s o
+    rcases step_pubsOf s o with ⟨hp, _⟩ | hp | ⟨hp, _, hs⟩
+    · simp [hp, monotoneFrom]
+    · simp [hp, monotoneFrom, hle]
+    · simp [hp, monotoneFrom, hs, NS.rank]
+  have hlast : lastOr s.st (pubsOf (step true s o).2) = (step true s o).1.st := by
+    rcases step_pubsOf s o with ⟨hp, he⟩ | hp | ⟨hp, he, _⟩
+    · simp [hp, lastOr, he]
+    · simp [hp, lastOr]
+    · simp [hp, lastOr, he]
   refine ⟨?_, ?_⟩
   · simp only [Mon.step]
-    apply clauses_none _ _ _ (cmdOk_step _ o hI hn1 hc1 ldecl hu0)
+    apply clauses_none _ _ _ ((cmdOk_step _ o hI hn1 hc1 ldecl hu0).lossy sc)
     · -- published states move forward
       rw [hc1]
-      have hle := step_rank_le s o
-      rcases step_pubsOf s o with ⟨hp, _⟩ | hp | ⟨hp, _, hs⟩
-      · simp [obsOf, hp, monotoneFrom]
-      · simp [obsOf, hp, monotoneFrom, hle]
-      · simp [obsOf, hp, monotoneFrom, hs, NS.rank]
+      exact monotoneFrom_sublist (delivered_sublist sc _) _ hmono
     · rw [hc1]
-      rcases step_pubsOf s o with ⟨hp, he⟩ | hp | ⟨hp, he, _⟩
-      · simp [obsOf, hp, lastOr, he]
-      · simp [obsOf, hp, lastOr]
-      · simp [obsOf, hp, lastOr, he]
-    · rfl
-    · rw [lt]; simp only [obsOf]; omega
+      show lastOr s.st (if (lostOf sc (pubsOf (step true s o).2)).isEmpty then
+        delivered sc (pubsOf (step true s o).2) else pubsOf (step true s o).2) = (step true s o).1.st
+      cases hl : (lostOf sc (pubsOf (step true s o).2)).isEmpty
+      · simpa using hlast
+      · have := delivered_of_no_loss sc _ (List.isEmpty_iff.mp hl)
+        simp only [↓reduceIte, this]; exact hlast
+    · exact isMerge_deliver sc _
+    · rw [lt]; simp only [obsOfL, obsOf]; omega
     · intro h
       rw [allIn_iff, hn1]
       intro i hi
@@ -550,19 +670,40 @@ theorem check_step {hist : List Op} {s : St} {m : Mon} (o : Op) (hI : RInv hist 
     · exact hexit
     · intro h; exact succNow_exited s o (hnow.mp h)
   · simp only [Mon.step]
-    exact ⟨hn1.trans (by rw [hk]), ldecl, lrep, rfl, by simp only [obsOf]; rw [lt]; omega, hexit,
+    exact ⟨hn1.trans (by rw [hk]), ldecl, lrep, rfl, by simp only [obsOfL, obsOf]; rw [lt]; omega, hexit,
       hi1.trans (by rw [step_mode]), hu1⟩
+
+theorem obsOfL_nil (s' : St) (es : List Evt) : obsOfL [] s' es = obsOf s' es := by
+  simp [obsOfL, obsOf]
+
+theorem traceOfL_nil (s : St) (ops : List Op) : traceOfL [] s ops = traceOf s ops := by
+  induction ops generalizing s with
+  | nil => rfl
+  | cons o os ih => simp [traceOfL, traceOf, obsOfL_nil, scriptAfter, ih]
+
+/-- one step of the model under the monitor: nothing is flagged and the simulation continues -/
+theorem check_step {hist : List Op} {s : St} {m : Mon} (o : Op) (hI : RInv hist s) (hS : Sim m s) :
+    (m.step (mopOf s o) (obsOf (step true s o).1 (step true s o).2)).2 = none ∧
+    Sim (m.step (mopOf s o) (obsOf (step true s o).1 (step true s o).2)).1 (step true s o).1 := by
+  have := check_stepL [] o hI hS
+  rwa [obsOfL_nil] at this
+
+/-- the monitor accepts the whole observable trace of the model — whatever the cluster provider
+refuses — from any state that satisfies the invariant and is in step with the monitor -/
+theorem runAll_noneL {hist : List Op} {s : St} {m : Mon} (sc : List Bool) (ops : List Op) (hI : RInv hist s) (hS : Sim m s) :
+    m.runAll (traceOfL sc s ops) = none := by
+  induction ops generalizing hist s m sc with
+  | nil => rfl
+  | cons o os ih =>
+    obtain ⟨h1, h2⟩ := check_stepL sc o hI hS
+    simp only [traceOfL, Mon.runAll, h1]
+    exact ih _ (hI.step o) h2
 
 /-- the monitor accepts the whole observable trace of the model from any state that
 satisfies the invariant and is in step with the monitor -/
 theorem runAll_none {hist : List Op} {s : St} {m : Mon} (ops : List Op) (hI : RInv hist s) (hS : Sim m s) :
     m.runAll (traceOf s ops) = none := by
-  induction ops generalizing hist s m with
-  | nil => rfl
-  | cons o os ih =>
-    obtain ⟨h1, h2⟩ := check_step o hI hS
-    simp only [traceOf, Mon.runAll, h1]
-    exact ih (hI.step o) h2
+  rw [← traceOfL_nil]; exact runAll_noneL [] ops hI hS
 
 
 /-! ### the start of a case -/
